@@ -207,6 +207,8 @@ pub fn prime_rel<T: MontConfig<N>, const N: usize>(c: &FieldCtx, t: &mut Tape<'_
         Some(x) => vals.push(("through BigInt", x, av.clone())),
         None => return vh_core::fail("from_bigint", format!("from_bigint(into_bigint(0x{:x})) = None", av)),
     }
+    // the const construction path (what MontFp! and Fp::new use: a const Montgomery multiplication with its own reduction)
+    vals.push(("through Fp::new (const path)", F::<T, N>::new(bi), av.clone()));
     vals.push(("through le bytes", F::<T, N>::from_le_bytes_mod_order(&bi.to_bytes_le()), av.clone()));
     vals.push(("through be bytes", F::<T, N>::from_be_bytes_mod_order(&bi.to_bytes_be()), av.clone()));
     vals.push(("through BigUint", F::<T, N>::from(av.clone()), av.clone()));
